@@ -251,6 +251,33 @@ func (rs *bodyStream) skipRest() error {
 		}
 
 		strCRLFLen := len(bytestr.StrCRLF)
+		if rs.chunkLeft > 0 {
+			// the handler stopped in the middle of a chunk: drop the rest of its
+			// payload and the CRLF after it before looking for the next chunk size,
+			// otherwise payload bytes would be parsed as chunk framing.
+			for rs.chunkLeft > 0 {
+				skip := rs.reader.Len()
+				if skip == 0 {
+					if _, err := rs.reader.Peek(1); err != nil {
+						return err
+					}
+					skip = rs.reader.Len()
+				}
+				if skip > rs.chunkLeft {
+					skip = rs.chunkLeft
+				}
+				if err := rs.reader.Skip(skip); err != nil {
+					return err
+				}
+				rs.chunkLeft -= skip
+				if err := rs.reader.Release(); err != nil {
+					return err
+				}
+			}
+			if err := utils.SkipCRLF(rs.reader); err != nil {
+				return err
+			}
+		}
 		for {
 			chunkSize, err := utils.ParseChunkSize(rs.reader)
 			if err != nil {
